@@ -91,7 +91,7 @@ impl KnownFindings {
             f.status == "open"
                 && f.property == v.property
                 && f.class == v.class
-                && f.site == v.site
+                && (f.site == "*" || f.site == v.site)
                 && f.detail_contains.iter().all(|s| v.detail.contains(s.as_str()))
         })
     }
